@@ -499,6 +499,11 @@ def ok_provenance(facts, rep, R5):
         bad = None
         unk = None
         n = 0
+        if not any(e["k"] == "call" and e["callee"] in DECS for p in paths for e in p.events):
+            # the entry point no longer delegates to the external decoder at all (an in-crate decoder): which value
+            # is "the decoder's output" is not something this rule can name
+            rep.inconc(R5, "%s does not call the delegated decoder on any path: an in-crate decoder is not analysed" % b.name)
+            continue
         for p in paths:
             if p.end != "ret" or is_err_term(p.ret) is not False:
                 continue
